@@ -95,8 +95,11 @@ def load_known(c):
                 if f["id"] not in ids:
                     c.known.append(f)
                     ids[f["id"]] = f
-                elif f.get("pinned_input") and not ids[f["id"]].get("pinned_input"):
-                    ids[f["id"]]["pinned_input"] = f["pinned_input"]   # a pin added after the merge
+                else:
+                    if f.get("pinned_input") and not ids[f["id"]].get("pinned_input"):
+                        ids[f["id"]]["pinned_input"] = f["pinned_input"]   # a pin added after the merge
+                    if f.get("match") and f["match"] != ids[f["id"]].get("match") and f.get("supersedes_match"):
+                        ids[f["id"]]["match"] = f["match"]                 # a NARROWED regex awaiting the merge
         except Exception as e:  # a broken proposal file must not hide anything
             c.oblige("proposed findings file is readable", False, str(e))
 
